@@ -162,12 +162,12 @@ func init() {
 				Oracles:  []HistOracle{orC12},
 				Messages: genMessage}
 		})
-	checks["C11"] = histCheck("C11", []string{"C11.parseLine_format", "C11.parse_append", "C11.parseLines_snoc", "C11.get_agrees_with_listing", "C11.get_append_zero", "C11.get_append_succ", "C11.get_out_of_range"}, histRule+"; `reflog` is run after every commit/switch/reset/rename and compared with the listing before",
+	checks["C11"] = histCheck("C11", []string{"C11.parseLine_format", "C11.parse_append", "C11.parseLines_snoc", "C11.get_agrees_with_listing", "C11.get_append_zero", "C11.get_append_succ", "C11.get_out_of_range", "C11.step_appends", "C11.run_prefix", "C11.shift", "C11.head0_commit", "C11.head0_switch", "C11.head0_reset", "C11.reset_refused"}, histRule+"; `reflog` is run after every commit/switch/reset/rename and compared with the listing before",
 		func(ctx *Ctx) *HistCfg {
 			return &HistCfg{Prop: "C11", Cases: tierN(ctx, 200, 2000), MinSteps: 10, MaxSteps: 35, TZs: []int{0, 19800, -12600, 3600},
 				W: weights(Weights{"commit": 18, "switch": 6, "switch-c": 4, "reset": 8, "branch-rename": 3, "branch-delete": 2, "branch": 3, "reflog": 4,
 					"write": 12, "add-all": 8, "restore": 0, "rm": 0, "junk": 0}),
-				Oracles: []HistOracle{orC08}, PreReset: true, ReflogAfter: true, Messages: genMessage}
+				Oracles: []HistOracle{orC08}, PreReset: true, ReflogAfter: true, Messages: genMessage, AbsRefine: true}
 		})
 	checks["C05"] = histCheck("C05", []string{"C05.reset_readback", "C05.readback_writeTree", "C05.walk_write", "C05.walk_encode", "C05.walk_empty", "C05.render_children", "C05.loop_encode", "C02.flatten_writeTree"}, histRule+"; after every commit `cat-file -p` is run on every tree of the snapshot, and `reset --mixed` + `ls-files -s` read snapshots back",
 		func(ctx *Ctx) *HistCfg {
